@@ -141,6 +141,69 @@ theorem default_starts_gt :
   simp [envGetNumStarts, getNumStarts, depotList, envRule, genericRule, Params.opsNoDepotStartEnvs,
     Params.opsNumStartsDepotEnvs]
 
+/-! ### more starts than customers: forced starts that are not even action indices (findings) -/
+
+theorem startsOf_lt (B k lo m : Nat) (hB : 0 < B) :
+    ∀ s ∈ startsOf B k lo m, s < lo + k := by
+  intro s hs
+  simp only [startsOf, List.mem_map, List.mem_range] at hs
+  obtain ⟨r, hr, rfl⟩ := hs
+  have h1 : r / B < k := (Nat.div_lt_iff_lt_mul hB).mpr hr
+  have h2 : r / B % m ≤ r / B := Nat.mod_le _ _
+  omega
+
+/-- mTSP: the generator's `num_loc = n` counts the depot, the reset mask has width `n` (customers
+`1..n-1`), and the generic rule is `(j mod n) + 1`.  Claim: every forced start is an action index. -/
+def mtsp_starts_in_mask_statement : Prop :=
+  ∀ (n B k : Nat), 0 < B → ∀ s ∈ startsOf B k (envRule "mtsp" n n n).1 (envRule "mtsp" n n n).2, s < n
+
+/-- `num_loc = 3` (two customers), `num_starts = 3`: the third forced start is index 3 of a width-3 mask. -/
+theorem mtsp_starts_in_mask_counterexample : ¬ mtsp_starts_in_mask_statement := by
+  intro h
+  have := h 3 1 3 (by decide) 3 (by decide)
+  omega
+
+/-- **partial**: with at most `n - 1` starts (the number of customers, which is also the default) all is well. -/
+theorem mtsp_starts_in_mask_partial (n B k : Nat) (hB : 0 < B) (hk : k + 1 ≤ n) :
+    ∀ s ∈ startsOf B k (envRule "mtsp" n n n).1 (envRule "mtsp" n n n).2, s < n := by
+  have hr : envRule "mtsp" n n n = (1, n) := by simp [envRule, genericRule, Params.opsNoDepotStartEnvs]
+  rw [hr]
+  intro s hs
+  have := startsOf_lt B k 1 n hB s hs
+  omega
+
+/-- SMTWTP: the generator has no `num_loc` (modulus `0xFFFFFFFF`), the mask has width `n + 1` (dummy job 0
+plus `n` jobs) and `get_num_starts` is not told about it, so the DEFAULT number of starts is `n + 1`. -/
+def smtwtp_starts_in_mask_statement : Prop :=
+  ∀ (n B : Nat), 0 < B → n + 1 < 0xFFFFFFFF →
+    ∀ s ∈ startsOf B (envGetNumStarts "smtwtp" (n + 1) (n + 1))
+      (envRule "smtwtp" 0xFFFFFFFF (n + 1) (n + 1)).1 (envRule "smtwtp" 0xFFFFFFFF (n + 1) (n + 1)).2, s < n + 1
+
+/-- two jobs: default `num_starts = 3`, forced starts 1, 2, 3 — index 3 does not exist. -/
+theorem smtwtp_starts_in_mask_counterexample : ¬ smtwtp_starts_in_mask_statement := by
+  intro h
+  have := h 2 1 (by decide) (by decide) 3 (by decide)
+  omega
+
+/-- **partial**: with at most `n` starts every forced start is a job index. -/
+theorem smtwtp_starts_in_mask_partial (n B k : Nat) (hB : 0 < B) (hk : k ≤ n) (hn : n < 0xFFFFFFFF) :
+    ∀ s ∈ startsOf B k (envRule "smtwtp" 0xFFFFFFFF (n + 1) (n + 1)).1
+      (envRule "smtwtp" 0xFFFFFFFF (n + 1) (n + 1)).2, s < n + 1 := by
+  have hr : envRule "smtwtp" 0xFFFFFFFF (n + 1) (n + 1) = (1, 0xFFFFFFFF) := by
+    simp [envRule, genericRule, Params.opsNoDepotStartEnvs]
+  rw [hr]
+  intro s hs
+  have := startsOf_lt B k 1 0xFFFFFFFF hB s hs
+  omega
+
+/-- the other depot environments wrap back onto customer 1: with `m = ` number of customers every forced
+start stays within `1..m` for EVERY `k` (so `num_starts`/beam width > `num_loc` repeats feasible customers) -/
+theorem generic_starts_wrap (B k m : Nat) (hm : 0 < m) :
+    ∀ s ∈ startsOf B k 1 m, 1 ≤ s ∧ s ≤ m := by
+  intro s hs
+  have := starts_in_range B k 1 m hm s hs
+  omega
+
 /-! ### OP (fixed rule, upstream d560d2a): feasible nodes in ascending order, cycling -/
 
 theorem feasCount_eq (n : Nat) (mask : Nat → Bool) : feasCount n mask = (opFeas n mask).length := rfl
